@@ -56,11 +56,22 @@ func printedBlocks(out string, ids map[string]int) []any {
 		cur = nil
 	}
 	hasDate := false
+	inQuote := false // inside a quoted (possibly multi-line) description: its lines are not directive boundaries
 	for _, ln := range strings.Split(out, "\n") {
+		if inQuote {
+			cur = append(cur, ln)
+			if strings.Count(ln, "\"")%2 == 1 {
+				inQuote = false
+			}
+			continue
+		}
 		if strings.TrimSpace(ln) == "" {
 			flush()
 			hasDate = false
 			continue
+		}
+		if strings.Count(ln, "\"")%2 == 1 {
+			inQuote = true
 		}
 		isDate := reBlockDate.MatchString(ln)
 		// a new directive starts at a dated line or at an annotation line once the current block has its date
